@@ -400,6 +400,11 @@ def _run_batch(prop, hyp, batch, stats):
             stats["nontrivial"].add(case_hash(c))
         for f in prop.features(c, iouts) if hasattr(prop, "features") else ():
             stats["features"][f] = stats["features"].get(f, 0) + 1
+        if any(len(x) > 1 and x[1] == "zodb" for x in c.get("cfg", [])):
+            # ZODB-backed stream (lib/zbox.py): the real objects live in a database connection
+            for f in ["stream:zodb-backed"] + ["stream:txn " + " ".join(map(str, x[1:])) for x in c["cmds"]
+                                               if x and x[0] == "txn"]:
+                stats["features"][f] = stats["features"].get(f, 0) + 1
         if len(stats["samples"]) < 2:
             stats["samples"].append({"case": c, "impl": iouts[:12]})
         for o in outcomes:
